@@ -72,7 +72,7 @@ func detrestGlueSuite(c *Ctx) {
 		detrestGlueCallback(c, r)
 		detrestGlueAztec(c, r)
 	}
-	n := c.Pick(900, 30000)
+	n := c.Pick(700, 30000)
 	vals := detrestHintVals()
 	c.Parallel(n, 16, func(i int, r *Rng) {
 		g, class, natural := c06GenImage(r)
@@ -201,7 +201,7 @@ func detrestGlueCallback(c *Ctx, r *Rng) {
 // AztecReader.Decode against Gzx.Glue.aztecRead: the four sub-results are observed on the real detector / decoder
 func detrestGlueAztec(c *Ctx, r *Rng) {
 	syms := detrestAztecSymbols(c, r, c.Pick(12, 100))
-	n := c.Pick(250, 8000)
+	n := c.Pick(200, 8000)
 	for i := 0; i < n && c.TimeLeft(); i++ {
 		img := detrestAZGen(r, syms, c.Pick(110, 300))
 		if r.Chance(0.35) { // heavy damage away from the centre: located, parameters read, data undecodable
